@@ -70,6 +70,7 @@ class _Self:
 
 def parserfn_slice(expand_parserfns: bool, expand_invoke: bool):
     g = {
+        **vars(core),
         "self": _Self(),
         "expand_parserfns": expand_parserfns,
         "expand_invoke": expand_invoke,
